@@ -136,8 +136,8 @@ pub struct Ctl {
     pub calls: u64,
     pub inject: Option<u64>,
     pub next_id: u32,
-    /// the next instrumented source iterator understates its `size_hint` as `(0, Some(0))`
-    pub lie_hint: bool,
+    /// what the next instrumented source iterator reports as its `size_hint` (see `Src::size_hint`)
+    pub hint_mode: u8,
     pub events: Vec<Ev>,
     /// harness-owned drops / creations: no tick, no event
     pub quiet: bool,
@@ -155,7 +155,7 @@ impl Ctl {
             calls: 0,
             inject: None,
             next_id: 100000,
-            lie_hint: false,
+            hint_mode: 0,
             events: Vec::with_capacity(1 << 14),
             quiet: false,
             mode: EqMode::Lawful,
